@@ -317,8 +317,7 @@ Proof.
         + eapply Jobj_ctor1; eauto. intros k'. rewrite !live_ids_cons, live_ids_f_cons. ifs_lia.
         + replace (tr0 ++ [ctor_ev (TR, k + 50); ctor_ev (TW, k)])
             with ((tr0 ++ [ECtor TR (k + 50)]) ++ [ECtor TW k]) by (now rewrite <- app_assoc).
-          set (fl := match lookup F (NMem x) with Some (_, b0) => b0 | None => false end).
-          eapply Jobj_ctor1 with (c := ((NMem x, (k + 50, fl)) :: F) :: Fs).
+          eapply Jobj_ctor1 with (c := ((NMem x, (k + 50, false)) :: F) :: Fs).
           * eapply Jobj_ctor1; [exact H|]. intros k'. rewrite !live_ids_cons, live_ids_f_cons.
             ifs_lia.
           * intros k'. rewrite !live_ids_cons, !live_ids_f_cons. ifs_lia. }
